@@ -36,6 +36,8 @@ pub enum Op {
     TailEdit(u16),
     /// the same for the case's hot file
     HotTailEdit,
+    /// write a file again with exactly the content it already has (new mtime, same bytes)
+    Rewrite(u16),
 }
 
 pub const BIG_SIZES: [usize; 9] = [
@@ -399,6 +401,18 @@ impl Hist {
                 self.work.insert(p.clone(), c);
                 self.tail_edit = true;
                 format!("edit {:?}", p)
+            }
+            Op::Rewrite(f) => {
+                let e = self.editable();
+                if e.is_empty() {
+                    return Ok("noop".into());
+                }
+                let p = e[pick(*f, e.len())].clone();
+                let c = self.work[&p].clone();
+                // make sure the time stamp really differs from what git has cached
+                std::thread::sleep(std::time::Duration::from_millis(3));
+                self.env.write_file(&p, &c);
+                format!("rewrite (same content) {:?}", p)
             }
             Op::CreateIgnored(k) => {
                 let p = IGNORED[pick(*k, IGNORED.len())].to_string();
